@@ -137,7 +137,23 @@ impl v::Executor for HistExec {
         let rw_content: Option<(String, Vec<u8>)> = if cmd.starts_with("rw ") {
             info.dirtying.last().map(|n| (n.clone(), digest(n)))
         } else { None };
-        for o in &info.outs {
+        let is_split = cmd.starts_with("split ");
+        if is_split {
+            // the i-th output depends on the i-th dirtying input only (on all of them if there are fewer);
+            // an output whose content would not change is left alone, modification time included
+            for (i, o) in info.outs.iter().enumerate() {
+                let mut body: Vec<u8> = cmd.as_bytes().to_vec();
+                body.push(0); body.extend_from_slice(o.as_bytes());
+                let rel: Vec<&String> = match info.dirtying.get(i) { Some(d) => vec![d], None => info.dirtying.iter().collect() };
+                for d in rel {
+                    body.push(0);
+                    match read_or(d) { Some(c) => { body.push(1); body.extend(c); } None => body.push(2) }
+                }
+                let content = hex16(fnv(&body));
+                if read_or(o).as_deref() != Some(&content[..]) { write_file(Path::new(o), &content, *clock); }
+            }
+        }
+        for o in info.outs.iter().filter(|_| !is_split) {
             let content = if is_gen {
                 info.explicit.first().and_then(|e| read_or(e)).unwrap_or_default()
             } else {
@@ -196,6 +212,7 @@ impl HProj {
         s.push_str(&format!("rule cl{sfx}\n  command = cl $flag $in $out\n  deps = msvc\n"));
         s.push_str(&format!("rule rsp{sfx}\n  command = link @$out.rsp $out\n  rspfile = $out.rsp\n  rspfile_content = $flag $in\n"));
         s.push_str(&format!("rule rw{sfx}\n  command = rw $flag $in -o $out\n"));
+        s.push_str(&format!("rule split{sfx}\n  command = split $flag $in -o $out\n"));
         if !self.fragment { s.push_str("rule gen\n  command = gen $in $out\n"); }
         // the regeneration step first, or last (as CMake writes it): then the manifest is not the
         // first file the text mentions
@@ -233,15 +250,15 @@ fn gen_hproj(rng: &mut Rng) -> HProj {
         steps.push(HStep { outs: vec!["p0".into()], iouts: vec![], rule: "phony".into(), expl: vec![], impl_: vec![], oo: vec![], val: vec![], flag: String::new() });
     }
     for i in 0..n {
-        let rule = match rng.below(12) { 0 => "phony", 1..=3 => "plain", 4..=6 => "cc", 7 => "cl", 8 | 9 => "rsp", _ => "rw" }.to_string();
+        let rule = match rng.below(14) { 0 => "phony", 1..=3 => "plain", 4..=6 => "cc", 7 => "cl", 8 | 9 => "rsp", 10 | 11 => "rw", _ => "split" }.to_string();
         let mut st = HStep { outs: vec![format!("o{}", i)], iouts: vec![], rule, expl: vec![], impl_: vec![], oo: vec![], val: vec![], flag: format!("-f{}", i) };
-        if rng.chance(1, 6) { st.outs.push(format!("sub/o{}b", i)); }
+        if rng.chance(1, 6) || st.rule == "split" { st.outs.push(format!("sub/o{}b", i)); }
         if rng.chance(1, 5) && st.rule != "phony" { st.iouts.push(format!("o{}i", i)); }
         let earlier: Vec<String> = steps.iter().filter(|s| s.rule != "phony").flat_map(|s| s.outs.clone()).collect();
         let earlier_any: Vec<String> = steps.iter().flat_map(|s| s.outs.clone()).collect();
         let pick_src = |rng: &mut Rng| format!("s{}", rng.below(NSRC));
         st.expl.push(if !earlier.is_empty() && rng.chance(1, 2) { earlier[rng.below(earlier.len())].clone() } else { pick_src(rng) });
-        if rng.chance(1, 3) { st.expl.push(pick_src(rng)); }
+        if rng.chance(1, 3) || st.rule == "split" { st.expl.push(pick_src(rng)); }
         if phony_src && rng.chance(1, 3) { if rng.chance(1, 2) { st.expl.push("p0".into()); } else { st.impl_.push("p0".into()); } }
         // a command that rewrites an input rewrites a file only it reads: its private cache file
         // `c<i>` (a plain source, or declared as the output of an input-less phony step below)
@@ -281,6 +298,11 @@ fn src_content(rng: &mut Rng, version: usize) -> Vec<u8> {
     if rng.chance(1, 12) { s.push_str(" #./h0"); }
     if rng.chance(1, 12) { s.push_str(" #d/../h1"); }
     if rng.chance(1, 15) { s.push_str(" #gone.h"); }
+    // a long report (more than 16 names, as a real compiler's): existing headers under many spellings
+    if rng.chance(1, 5) {
+        let n = 17 + rng.below(8);
+        for k in 0..n { s.push_str(&format!(" #{}h{}", "./".repeat(k % 5 + 1), k % NHDR)); }
+    }
     if rng.chance(1, 25) { s.push_str(" !fail"); }
     if rng.chance(1, 80) { s.push_str(" !int"); }
     s.into_bytes()
